@@ -153,6 +153,11 @@ func init() {
 		Run:    func(plan any, tape *Tape, ss uint64) *RunResult { return RunC11(plan.(*C11Plan), tape, ss) },
 		Decode: func(b json.RawMessage) (any, error) { p := &C11Plan{}; return p, json.Unmarshal(b, p) },
 	})
+	register(&Family{Prop: "C11", Name: "c11-many-timeouts", Weight: 1,
+		Gen:    func(r *RNG) any { return GenC11ManyTimeouts(r) },
+		Run:    func(plan any, tape *Tape, ss uint64) *RunResult { return RunC11(plan.(*C11Plan), tape, ss) },
+		Decode: func(b json.RawMessage) (any, error) { p := &C11Plan{}; return p, json.Unmarshal(b, p) },
+	})
 	register(&Family{Prop: "C11", Name: "c11", Weight: 5,
 		Gen:    func(r *RNG) any { return GenC11(r) },
 		Run:    func(plan any, tape *Tape, ss uint64) *RunResult { return RunC11(plan.(*C11Plan), tape, ss) },
